@@ -885,4 +885,63 @@ example :
     (.leaf "s:3".toList, .none, .leaf "s:x".toList, .leaf "s:4".toList, .leaf "s:".toList, .isMap, 4) := by
   decide
 
+/-! ## 9. the binding step: what is a theorem and what is a parameter
+
+`load` takes the struct a decode of the merged values yields (`inp.bind = some (.ok fresh)`) as an input: mapstructure,
+`applyDefaults` and `Validate()` are parameters, shipped per case from a fresh `Config`. With `bound := fresh` in the
+model, `bound_is_fresh` and the second conjunct of `history_independent` hold **by construction** — they say that the
+model has no other influence on the struct, not that the code has none. The part of the binding step that is rivaas's
+own is *what the decoder starts from*: as shipped it decoded into the existing struct (`overlay old fresh fields`:
+fields whose key is absent keep their old non-zero value — `loadAsIs`, K14), since the fix `bind` zeroes the struct
+first. That step is modelled and proved here; that the real decoder behaves like `overlay` is correspondence
+(the K14 cases: 291 of 2 005 histories differed on the tree as shipped, none since). -/
+
+/-- the struct `bind` starts from since the fix: every field at its zero value -/
+def zeroBound (fields : List FieldInfo) : List (Bytes × Bytes) := fields.map fun f => (f.name, f.zero)
+
+theorem lemma_lookup_zeroBound (fields : List FieldInfo) (name : Bytes) :
+    (zeroBound fields).lookup name = (fields.find? fun f => f.name == name).map (·.zero) := by
+  induction fields with
+  | nil => rfl
+  | cons f rest ih =>
+    simp only [zeroBound, List.map_cons, List.find?_cons]
+    by_cases h : f.name == name
+    · have h' : (name == f.name) = true := by
+        rw [beq_iff_eq] at h ⊢; exact h.symm
+      simp [List.lookup, h, h']
+    · have h' : (name == f.name) = false := by
+        cases hh : (name == f.name) with
+        | false => rfl
+        | true => rw [beq_iff_eq] at hh; exact absurd (by rw [beq_iff_eq]; exact hh.symm) h
+      simp only [List.lookup, h', h]
+      exact ih
+
+/-- **zero first, then decode**: decoding into the zeroed struct gives exactly what a fresh `Config` gives, whatever
+    the field list, whatever was bound before — the K14 repair as a theorem about the overlay semantics of the decoder
+    (present fields are written; absent ones keep what the struct held, and defaults fill what is still zero) -/
+theorem zeroed_bind_is_fresh (fields : List FieldInfo) (fresh : List (Bytes × Bytes)) :
+    overlay (zeroBound fields) fresh fields = fresh := by
+  unfold overlay
+  conv => rhs; rw [← List.map_id fresh]
+  apply List.map_congr_left
+  intro nf _
+  obtain ⟨name, fv⟩ := nf
+  simp only [id]
+  rw [lemma_lookup_zeroBound]
+  cases hf : fields.find? (fun f => f.name == name) with
+  | none => rfl
+  | some f =>
+    simp only [Option.map_some]
+    by_cases hp : f.present = true
+    · simp [hp]
+    · simp [hp]
+
+/-- … whereas decoding into the struct as it is (as shipped) keeps a removed key's old value: the two differ -/
+theorem unzeroed_bind_depends_on_history :
+    overlay [("name".toList, "\"old\"".toList)] [("name".toList, "\"\"".toList)]
+        [{ name := "name".toList, present := false, zero := "\"\"".toList }] ≠
+      overlay (zeroBound [{ name := "name".toList, present := false, zero := "\"\"".toList }])
+        [("name".toList, "\"\"".toList)] [{ name := "name".toList, present := false, zero := "\"\"".toList }] := by
+  decide
+
 end Rivaas.C14
